@@ -624,8 +624,7 @@ def shrink(c, fails):
             st, f = L.evaluate(flat_lines(trial), c["eval_first"], light=light)
             if st == "ok" and target in check_signature(f):
                 blocks, changed = trial, True
-    if light or True:
-        st, fails = L.evaluate(flat_lines(blocks), c["eval_first"])
+    st, fails = L.evaluate(flat_lines(blocks), c["eval_first"])      # full contract on the reduced recipe
     return blocks, fails
 
 
